@@ -9,7 +9,7 @@ Variable c : cfg.
 
 Lemma presS_env s a s' :
   InvS s -> input_okb s a = true -> step c s a = Some s' ->
-  match a with Append _ | Notify _ | Start | Stop | Tick | Check _ _ _ => True | _ => False end -> InvS s'.
+  match a with Append _ | Notify _ | Start | Stop | Tick | Check _ _ _ _ => True | _ => False end -> InvS s'.
 Proof.
   intros HI Hin H Ha. open_state s. destruct a; try contradiction; cbn in H, Hin.
   - (* Append *)
